@@ -51,7 +51,7 @@ func AddAttacks(g *Generated, r *rand.Rand, attackers []string) *Attack {
 		a.Victims[v.ID] = true
 		k++
 		base := fmt.Sprintf("https://%s/evil/%d-%d", ah, labelCounterNext(), k)
-		switch r.Intn(19) {
+		switch r.Intn(23) {
 		case 0: // a note of the attacker that embeds a forged copy as its parent and as its author
 			g.SetDoc(base, map[string]any{"id": base, "type": "Note", "name": "EVILNOTE", "content": "<p>own</p>", "inReplyTo": forgedCopy(v, ah, k), "attributedTo": forgedCopy(victims[r.Intn(len(victims))], ah, k)})
 			a.Forgeries += 2
@@ -125,6 +125,33 @@ func AddAttacks(g *Generated, r *rand.Rand, attackers []string) *Attack {
 			g.SetDoc(base, map[string]any{"id": base, "type": []string{"Create", "Announce", "Like"}[r.Intn(3)], "actor": map[string]any{"type": "Person", "name": "EVILACTOR"},
 				"object": map[string]any{"id": ghost, "type": "Note", "name": "GHOSTX ZZFORGERY by " + ah, "content": "<p>forged</p>", "published": "2024-01-01T00:00:00Z", "attributedTo": v.ID}})
 			a.Forgeries++
+		case 19, 20: // a note on the victim's own host refers to its parent by a relative reference that the victim's open redirect sends to the attacker's forgery
+			forged := base + "/forged-rel"
+			g.SetDoc(forged, forgedCopy(v, ah, k))
+			q := fmt.Sprintf("/open-redirect?rel=%d-%d", labelCounterNext(), k)
+			g.SetRedirect("https://"+v.Host+q, forged)
+			note := fmt.Sprintf("https://%s/posts/relref-%d", v.Host, labelCounterNext())
+			ref := q
+			if r.Intn(2) == 0 {
+				ref = "//" + v.Host + q // scheme-relative
+			}
+			g.SetDoc(note, map[string]any{"id": note, "type": "Note", "name": "RELREF", "content": "<p>x</p>", "published": "2024-01-01T00:00:00Z", "inReplyTo": ref, "attributedTo": ref})
+			a.Entries = append(a.Entries, note)
+			a.Forgeries += 2
+		case 21, 22: // a collection on the victim's host whose first page is a relative reference that is redirected to an attacker page claiming an id on the victim's host
+			page := base + "/page-rel"
+			ghost := fmt.Sprintf("https://%s/coll/pages/ghost-%d", v.Host, labelCounterNext())
+			g.SetDoc(page, map[string]any{"id": ghost, "type": "OrderedCollectionPage", "totalItems": 2.0, "orderedItems": []any{forgedCopy(v, ah, k), forgedCopy(victims[r.Intn(len(victims))], ah, k)}})
+			q := fmt.Sprintf("/open-redirect?relpage=%d-%d", labelCounterNext(), k)
+			g.SetRedirect("https://"+v.Host+q, page)
+			coll := fmt.Sprintf("https://%s/coll/relative-%d", v.Host, labelCounterNext())
+			ref := q
+			if r.Intn(2) == 0 {
+				ref = "//" + v.Host + q
+			}
+			g.SetDoc(coll, map[string]any{"id": coll, "type": "OrderedCollection", "totalItems": 2.0, "first": ref})
+			a.Entries = append(a.Entries, coll)
+			a.Forgeries += 2
 		case 8: // ping-pong: the attacker's document names the victim's id, the victim's real document is fine
 			g.SetDoc(base, map[string]any{"id": v.ID, "type": "Note", "name": v.Label + "X ZZFORGERY by " + ah, "content": "<p>forged</p>", "replies": map[string]any{"id": v.ID + "/fake-replies", "type": "Collection", "items": []any{forgedCopy(v, ah, k)}}})
 			a.Forgeries += 2
